@@ -569,9 +569,9 @@ B('F1-resolver-first-member-only', ['C07', 'C08'], 'type_blocks.py', 'TypeBlocks
   'assigned_dtype = resolve_dtype_iter(\n                            chain((a.dtype for a in assigned_blocks), (b.dtype,)))',
   'assigned_dtype = resolve_dtype(assigned_blocks[0].dtype, b.dtype)', 'F1.resolver-coverage', '_assign_from_iloc_by_blocks')
 B('F1-dtype-captured-before-reindex', ['C07', 'C08'], 'series.py', 'SeriesAssign.__call__',
-  "                    fill_value=fill_value).values\n\n        if value.__class__ is np.ndarray:", "                    fill_value=fill_value).values\n            value_dtype = value.dtype\n            value = value\n\n        if value.__class__ is np.ndarray and False:", 'F1.', 'SeriesAssign.__call__')
-B('F1-dtype-captured-before-reindex-2', ['C07', 'C08'], 'series.py', 'SeriesAssign.__call__',
-  "        if isinstance(value, Series):\n", "        if isinstance(value, Series):\n            value_dtype = value.dtype\n", 'F1.dtype-captured', 'SeriesAssign.__call__')
+  "        if isinstance(value, Series):\n", "        if isinstance(value, Series):\n            value_dtype = value.dtype\n", 'F1.dtype-captured', 'SeriesAssign.__call__',
+  edits=[dict(file='series.py', within='SeriesAssign.__call__', find="        if isinstance(value, Series):\n", replace="        if isinstance(value, Series):\n            value_dtype = value.dtype\n"),
+         dict(file='series.py', within='SeriesAssign.__call__', find="\n        if value.__class__ is np.ndarray:", replace="\n        elif value.__class__ is np.ndarray:")])
 N('F1-resolver-chain-swapped', ['C07', 'C08'], 'type_blocks.py', 'TypeBlocks._assign_from_iloc_by_blocks',
   'chain((a.dtype for a in assigned_blocks), (b.dtype,))', 'chain((b.dtype,), (a.dtype for a in assigned_blocks))')
 
@@ -761,5 +761,13 @@ B('AI-tuple-axis-fixed', ['C03'], 'frame.py', 'Frame._axis_tuple_items',
   'self._axis_tuple(axis=axis, constructor=constructor)', 'self._axis_tuple(axis=1, constructor=constructor)', ('E.axis-items', 'I.same-name'), '_axis_tuple_items')
 N('AI-keys-if-statement', ['C03', 'C16'], 'frame.py', 'Frame._axis_series_items',
   'keys = self._index if axis == 1 else self._columns', 'keys = self._columns if axis == 0 else self._index')
+
+# ---------------------------------------------------------------------------------- cached leaf counts (C05, C09)
+B('L-invalidate-root-and-grown-only', ['C05', 'C09'], 'index_level.py', 'IndexLevelGO.append',
+  '        for node in edge_nodes:\n            node._length = None', '        self._length = None\n        edge_nodes[depth_not_found]._length = None', 'I.ancestor-cache', 'IndexLevelGO.append')
+B('L-invalidate-slice', ['C05', 'C09'], 'index_level.py', 'IndexLevelGO.append',
+  '        for node in edge_nodes:\n            node._length = None', '        for node in edge_nodes[depth_not_found:]:\n            node._length = None', 'I.ancestor-cache', 'IndexLevelGO.append')
+N('L-invalidate-renamed', ['C05', 'C09'], 'index_level.py', 'IndexLevelGO.append',
+  '        for node in edge_nodes:\n            node._length = None', '        for visited in edge_nodes:\n            visited._length = None')
 
 VARIANTS = V
